@@ -467,6 +467,22 @@ mod detail {
         let mut idx_tkn: usize = 0;
         let mut depth = 0;
         let mut unary_stack: UnaryOpIdxDepthStack = SmallVec::new();
+        // Number of completed operands and of binary operators per open parenthesis level. A
+        // binary operator in front of its left operand, e.g., the `*` in `* (x+y) z`, is kept
+        // back until that operand is complete, since the i-th operator of the list of flat
+        // operators is applied to the operands i and i+1.
+        let mut levels: SmallVec<[(usize, usize, Option<FlatOp<T>>); 8]> = smallvec![(0, 0, None)];
+        fn operand_completed<T: Clone>(
+            levels: &mut SmallVec<[(usize, usize, Option<FlatOp<T>>); 8]>,
+            flat_ops: &mut FlatOpVec<T>,
+        ) {
+            if let Some((n_operands, _, kept_back)) = levels.last_mut() {
+                *n_operands += 1;
+                if let Some(op) = kept_back.take() {
+                    flat_ops.push(op);
+                }
+            }
+        }
 
         let iter_subsequent_unaries = |end_idx: usize| {
             let unpack = |token_idx| unpack_unary(token_idx, parsed_tokens);
@@ -508,13 +524,26 @@ mod detail {
                     if is_binary(op, idx_tkn, parsed_tokens)? {
                         let mut bin_op = op.bin()?;
                         bin_op.prio += depth * DEPTH_PRIO_STEP;
-                        flat_ops.push(FlatOp::<T> {
+                        let flat_op = FlatOp::<T> {
                             unary_op: UnaryOp::new(),
                             bin_op: BinOpWithIdx {
                                 op: bin_op,
                                 idx: *op_idx,
                             },
-                        });
+                        };
+                        match levels.last_mut() {
+                            Some((n_operands, n_ops, kept_back))
+                                if *n_ops >= *n_operands && kept_back.is_none() =>
+                            {
+                                *n_ops += 1;
+                                *kept_back = Some(flat_op);
+                            }
+                            Some((_, n_ops, _)) => {
+                                *n_ops += 1;
+                                flat_ops.push(flat_op);
+                            }
+                            None => flat_ops.push(flat_op),
+                        }
                     } else if let ParsedToken::Paren(p) = &parsed_tokens[idx_tkn + 1] {
                         match p {
                             Paren::Close => {
@@ -531,6 +560,7 @@ mod detail {
                     let kind = FlatNodeKind::Num(n.clone());
                     let flat_node = create_node(idx_tkn, kind)?;
                     flat_nodes.push(flat_node);
+                    operand_completed(&mut levels, &mut flat_ops);
                     idx_tkn += 1;
                 }
                 ParsedToken::Var(name) => {
@@ -538,6 +568,7 @@ mod detail {
                     let kind = FlatNodeKind::Var(idx);
                     let flat_node = create_node(idx_tkn, kind)?;
                     flat_nodes.push(flat_node);
+                    operand_completed(&mut levels, &mut flat_ops);
                     idx_tkn += 1;
                 }
                 ParsedToken::Paren(p) => {
@@ -545,6 +576,7 @@ mod detail {
                         Paren::Open => {
                             idx_tkn += 1;
                             depth += 1;
+                            levels.push((0, 0, None));
                         }
                         Paren::Close => {
                             let lowest_prio_flat_op = flat_ops
@@ -579,10 +611,17 @@ mod detail {
                             }
                             idx_tkn += 1;
                             depth -= 1;
+                            if let Some((_, _, Some(op))) = levels.pop() {
+                                flat_ops.push(op);
+                            }
+                            operand_completed(&mut levels, &mut flat_ops);
                         }
                     }
                 }
             }
+        }
+        while let Some((_, _, kept_back)) = levels.pop() {
+            flat_ops.extend(kept_back);
         }
         let n_ops = flat_ops.len();
         let n_nodes = flat_nodes.len();
